@@ -768,6 +768,9 @@ class Builder:
             self.count("R4.to_bytes")
         for rule in (xopts or {}).get("rules", []):
             if rule[0] == "R5":
+                for mm in re.finditer(r"\.\s*(trim_end_matches|trim_start_matches)\s*\(\s*'", m[a:b]):
+                    edits.append(Edit(a + mm.start(), a + mm.start(1) + len(mm.group(1)), [Seg(".vx_%s_char" % mm.group(1), "repo", fn=qual)]))
+                    self.count("R5")
                 # str Pattern / predicate methods -> trusted `VxStr` methods over the byte view (token-level renames)
                 for mm in re.finditer(r"\.\s*(ends_with|starts_with)\s*\(\s*(')?", m[a:b]):
                     name = "vx_%s%s" % (mm.group(1), "_char" if mm.group(2) else "")
@@ -1024,6 +1027,58 @@ class Builder:
                 for mm in re.finditer(r"([A-Za-z_][A-Za-z0-9_]*)\s*\[([^\[\]]*?)\.\.\s*\]\s*\.\s*iter_mut\s*\(\s*\)\s*\.\s*for_each\s*\(\s*\|\s*([A-Za-z_][A-Za-z0-9_]*)\s*\|\s*\*\s*\3\s*=\s*([^)]*?)\)", m[a:b]):
                     edits.append(Edit(a + mm.start(), a + mm.end(), [Seg("vx_fill_from(&mut %s, %s, %s)" % (mm.group(1), src[a + mm.start(2):a + mm.end(2)].strip(), src[a + mm.start(4):a + mm.end(4)].strip()), "repo", fn=qual)]))
                     self.count("R26")
+            if rule[0] == "R27":
+                # write!(F, "L0{}L1{}..Ln", A1, .., An)  ->  { vx_fmt_lit(F, "L0"); vx_fmt_display(F, &(A1)); ..; vx_fmt_lit(F, "Ln"); Ok(()) }
+                # (what `write!` with plain `{}` placeholders does: the literal pieces and the Display text of each argument, in order;
+                #  writing into the in-memory formatter of `to_string` cannot fail).  The argument expressions stay in place.
+                for mm in re.finditer(r"(?<![A-Za-z0-9_])write\s*!\s*\(", m[a:b]):
+                    op = a + mm.end() - 1
+                    cp = rs.match_close(m, op)
+                    spans, depth, st = [], 0, op + 1
+                    for k2 in range(op + 1, cp):
+                        ch = m[k2]
+                        if ch in "([{":
+                            depth += 1
+                        elif ch in ")]}":
+                            depth -= 1
+                        elif ch == "," and depth == 0:
+                            spans.append((st, k2))
+                            st = k2 + 1
+                    if src[st:cp].strip():
+                        spans.append((st, cp))
+
+                    def tight(sp):
+                        x, y = sp
+                        while x < y and src[x] in " \t\n":
+                            x += 1
+                        while y > x and src[y - 1] in " \t\n":
+                            y -= 1
+                        return x, y
+                    spans = [tight(sp) for sp in spans]
+                    if len(spans) < 2:
+                        continue
+                    fmt_txt = src[spans[1][0]:spans[1][1]]
+                    if not re.match(r'^"[^"\\]*"$', fmt_txt):
+                        continue
+                    fmt_s = fmt_txt[1:-1]
+                    if "{" in fmt_s.replace("{}", ""):
+                        continue  # only plain `{}` placeholders
+                    lits = fmt_s.split("{}")
+                    args = spans[2:]
+                    if len(lits) - 1 != len(args):
+                        continue
+                    fexp = src[spans[0][0]:spans[0][1]]
+
+                    def lit(k2):
+                        return ('vx_fmt_lit(%s, "%s"); ' % (fexp, lits[k2])) if lits[k2] else ""
+                    if not args:
+                        edits.append(Edit(a + mm.start(), cp + 1, [Seg("{ " + lit(0) + "Ok(()) }", "repo", fn=qual)]))
+                    else:
+                        edits.append(Edit(a + mm.start(), args[0][0], [Seg("{ " + lit(0) + "vx_fmt_display(%s, &(" % fexp, "repo", fn=qual)]))
+                        for k2 in range(1, len(args)):
+                            edits.append(Edit(args[k2 - 1][1], args[k2][0], [Seg(")); " + lit(k2) + "vx_fmt_display(%s, &(" % fexp, "repo", fn=qual)]))
+                        edits.append(Edit(args[-1][1], cp + 1, [Seg(")); " + lit(len(args)) + "Ok(()) }", "repo", fn=qual)], order=5))
+                    self.count("R27")
             if rule[0] == "R18":
                 # `E.then(|| BODY)` -> `(if E { Some(BODY) } else { None })`  (the definition of bool::then)
                 for mm in re.finditer(r"\.\s*then\s*\(\s*\|\s*\|", m[a:b]):
